@@ -127,12 +127,11 @@ theorem gen_supported_ascii_lower : ∀ c ∈ S, c ≠ [] ∧ ∀ b ∈ c, b < 1
 
 /-- non-vacuity: `"EN-us"` is a case variant of `"en-us"` and maps to it -/
 example : CaseVariant [69, 78, 45, 117, 115] [101, 110, 45, 117, 115] := by simp [CaseVariant]
-example : mapToNearest false asciiPy S (some [69, 78, 45, 117, 115]) = some [101, 110, 45, 117, 115] := by decide
+example : mapToNearest true asciiPy S (some [69, 78, 45, 117, 115]) = some [101, 110, 45, 117, 115] := by decide
 
-/-- **map_unique_language.** A code that is not itself supported, whose language tag is that of exactly one
-supported culture, is mapped to that culture (regional variants: `fr-ca`, `pt-pt`, `zh-tw`, …).
-Generic in the supported list: needs that list's `UniqueTagOk` fact (decided for the working tree's list above). -/
-theorem map_unique_language (E : PyStr) (S : List Str) (hU : UniqueTagOk S) (c x : Str) (hc : c ≠ [])
+/-- Regression variant (candidate test `startswith`, the code before the fix): the same statement needs the
+supported list's `UniqueTagOk` fact (decided for the working tree's list above). -/
+theorem map_unique_language_startswith (E : PyStr) (S : List Str) (hU : UniqueTagOk S) (c x : Str) (hc : c ≠ [])
     (hns : E.lower c ∉ S) (hx : x ∈ S)
     (huniq : S.filter (fun s => beforeDash s == beforeDash x) = [x])
     (hlang : langPrefix E (E.lower c) = beforeDash x) :
@@ -140,14 +139,16 @@ theorem map_unique_language (E : PyStr) (S : List Str) (hU : UniqueTagOk S) (c x
   rw [mapToNearest_some _ _ _ _ hc]
   simp only [hns, if_false, hlang, candidates_current, hU x hx huniq, choose]
 
-theorem map_unique_language_gen (E : PyStr) (c x : Str) (hc : c ≠ []) (hns : E.lower c ∉ S) (hx : x ∈ S)
+theorem map_unique_language_startswith_gen (E : PyStr) (c x : Str) (hc : c ≠ []) (hns : E.lower c ∉ S) (hx : x ∈ S)
     (huniq : S.filter (fun s => beforeDash s == beforeDash x) = [x])
     (hlang : langPrefix E (E.lower c) = beforeDash x) :
     mapToNearest false E S (some c) = some x :=
-  map_unique_language E S gen_unique_tag c x hc hns hx huniq hlang
+  map_unique_language_startswith E S gen_unique_tag c x hc hns hx huniq hlang
 
-/-- the same for the repaired candidate test (no table fact needed) -/
-theorem map_unique_language_repaired (E : PyStr) (S : List Str) (c x : Str) (hc : c ≠ [])
+/-- **map_unique_language.** A code that is not itself supported, whose language tag is that of exactly one
+supported culture, is mapped to that culture (regional variants: `fr-ca`, `pt-pt`, `zh-tw`, …) — the code as
+it is (language tags compared), for any supported list and any `str.lower`. -/
+theorem map_unique_language (E : PyStr) (S : List Str) (c x : Str) (hc : c ≠ [])
     (hns : E.lower c ∉ S)
     (huniq : S.filter (fun s => beforeDash s == beforeDash x) = [x])
     (hlang : langPrefix E (E.lower c) = beforeDash x) :
@@ -156,9 +157,9 @@ theorem map_unique_language_repaired (E : PyStr) (S : List Str) (c x : Str) (hc 
   simp only [hns, if_false, hlang, candidates_repaired, huniq, choose]
 
 /-- non-vacuity: `fr-CA`, `pt-pt`, `zh-TW` -/
-example : mapToNearest false asciiPy S (some [102, 114, 45, 67, 65]) = some [102, 114, 45, 102, 114] := by decide
-example : mapToNearest false asciiPy S (some [112, 116, 45, 112, 116]) = some [112, 116, 45, 98, 114] := by decide
-example : mapToNearest false asciiPy S (some [122, 104, 45, 84, 87]) = some [122, 104, 45, 99, 110] := by decide
+example : mapToNearest true asciiPy S (some [102, 114, 45, 67, 65]) = some [102, 114, 45, 102, 114] := by decide
+example : mapToNearest true asciiPy S (some [112, 116, 45, 112, 116]) = some [112, 116, 45, 98, 114] := by decide
+example : mapToNearest true asciiPy S (some [122, 104, 45, 84, 87]) = some [122, 104, 45, 99, 110] := by decide
 
 /-! ## Routing: which constructor answers a request
 
@@ -199,30 +200,49 @@ theorem gen_no_models_for_ko_tr_enstar :
     ∀ k ∈ List.range nKinds, ∀ p ∈ genRegs k, p.2 ≠ koKr ∧ p.2 ≠ trTr ∧ p.2 ≠ enStar := by decide +kernel
 
 /-- non-vacuity of `no_model_falls_back`: the date-time recogniser (kind 2) asked for ja-jp -/
-example : route (genCfg asciiPy false) 2 dateTimeModel (some jaJp) true 0 = .ok ⟨2, dateTimeModel, enUs, 0⟩ ∧
-    route (genCfg asciiPy false) 2 dateTimeModel (some jaJp) false 0 = .error .valueError := by decide +kernel
+example : route (genCfg asciiPy true) 2 dateTimeModel (some jaJp) true 0 = .ok ⟨2, dateTimeModel, enUs, 0⟩ ∧
+    route (genCfg asciiPy true) 2 dateTimeModel (some jaJp) false 0 = .error .valueError := by decide +kernel
 
 /-- The culture string a `Recognizer.get_model` call works with (`if culture is None: culture = self.target_culture`). -/
 def asked (i : Inst) (c : Option Str) : Option Str := match c with | none => i.target | some x => some x
 
-/-
-**map_other_falls_back — full statement (FALSE for the code as it is):**
-  ∀ py i t c fb,
-    route (genCfg py false) i.kind t (resolve (genCfg py false) i c) fb i.options =
-    route (genCfg py false) i.kind t (specCulture py S (asked i c)) fb i.options
-i.e. a supported code in any case gets its culture, a regional variant of a language with exactly one supported
-culture gets that culture, and every other string is answered like "no culture" (English with fallback,
-ValueError without). The code tests `supported.startswith(prefix)` instead of comparing language tags, so a
-string whose prefix is a proper initial segment of exactly one supported code is routed to that culture:
-see `map_other_falls_back_false_f/_zx/_d`. Proved below: the statement under the exact guard `PrefixIsTag`
-(`map_other_falls_back_partial`), and the full statement for the repaired candidate test
-(`map_other_falls_back_repaired`).
--/
+/-- **map_other_falls_back** (full strength; the code as it is). For every culture string, recogniser instance,
+model type, fallback flag and `str.lower`: the request is answered from the constructor the property names —
+a supported code in any letter case gets its culture, a regional variant of a language with exactly one
+supported culture gets that culture, and every other string is answered like "no culture": the English model
+with fallback, ValueError without (`other_code_gets_english`). -/
+theorem map_other_falls_back (py : PyStr) (i : Inst) (t : Str) (c : Option Str) (fb : Bool) :
+    route (genCfg py true) i.kind t (resolve (genCfg py true) i c) fb i.options =
+      route (genCfg py true) i.kind t (specCulture py S (asked i c)) fb i.options :=
+  route_map_eq_spec (genCfg py true) (gen_regs_supported py true) (fun h => by cases h) i.kind t
+    (asked i c) fb i.options (fun h => by cases h)
 
-/-- **map_other_falls_back_partial.** The code as it is answers every request as the property demands whenever
-the guard holds: if exactly one supported code starts with the requested prefix then that code's language tag
-is the prefix. -/
-theorem map_other_falls_back_partial (py : PyStr) (i : Inst) (t : Str) (c : Option Str) (fb : Bool)
+/-- "any other code": when the string denotes no supported culture, the answer is English with fallback and
+ValueError without (for every model type that has an English model — all of them, `gen_english_registered_table`). -/
+theorem other_code_gets_english (py : PyStr) (r : Bool) (kind : Nat) (t : Str) (c : Option Str) (o : Int)
+    (hother : specCulture py S c = none) (hen : (t, RTV.Gen.fallbackCulture) ∈ genRegs kind) :
+    route (genCfg py r) kind t (specCulture py S c) true o = .ok ⟨kind, t, RTV.Gen.fallbackCulture, o⟩ ∧
+    route (genCfg py r) kind t (specCulture py S c) false o = .error .valueError := by
+  rw [hother]
+  exact no_model_falls_back (genCfg py r) kind t none o (by simp) hen
+
+/-- the strings of the repaired defect, on the code as it is: English with fallback, ValueError without -/
+example : route (genCfg asciiPy true) 0 numberModel (resolve (genCfg asciiPy true) ⟨0, none, 0⟩ (some [102])) true 0 =
+    .ok ⟨0, numberModel, enUs, 0⟩ := by decide +kernel
+example : route (genCfg asciiPy true) 0 numberModel (resolve (genCfg asciiPy true) ⟨0, none, 0⟩ (some [100])) false 0 =
+    .error .valueError := by decide +kernel
+
+/-! ### Regression section: the candidate test before the fix (`supported.startswith(prefix)`)
+
+The full statement above is FALSE for this variant: a string whose prefix is a proper initial segment of
+exactly one supported code is routed to that culture (`startswith_variant_false_f/_zx/_d`; the defect repaired
+by the `fix:` commit "map_to_nearest_language compares the language tag instead of a string prefix"). Kept:
+the statement under the exact guard `PrefixIsTag`, the negative witnesses, and the correspondence, which
+replays the witnesses on the implementation on every run and reports them if the tree reverts. -/
+
+/-- The `startswith` variant answers every request as the property demands whenever the guard holds: if exactly
+one supported code starts with the requested prefix then that code's language tag is the prefix. -/
+theorem map_other_falls_back_startswith_partial (py : PyStr) (i : Inst) (t : Str) (c : Option Str) (fb : Bool)
     (guard : PrefixIsTag py S (asked i c)) :
     route (genCfg py false) i.kind t (resolve (genCfg py false) i c) fb i.options =
       route (genCfg py false) i.kind t (specCulture py S (asked i c)) fb i.options :=
@@ -250,48 +270,25 @@ theorem prefixIsTag_of_tag_or_none (E : PyStr) (S : List Str) (c : Option Str)
     rw [hnone x this.1] at this
     simp at this
 
-/-- **map_other_falls_back_repaired.** With the repaired candidate test (compare the language tag) the full
-statement holds for every culture string, recogniser, type, fallback flag and `str.lower`. -/
-theorem map_other_falls_back_repaired (py : PyStr) (i : Inst) (t : Str) (c : Option Str) (fb : Bool) :
-    route (genCfg py true) i.kind t (resolve (genCfg py true) i c) fb i.options =
-      route (genCfg py true) i.kind t (specCulture py S (asked i c)) fb i.options :=
-  route_map_eq_spec (genCfg py true) (gen_regs_supported py true) (fun h => by cases h) i.kind t
-    (asked i c) fb i.options (fun h => by cases h)
-
-/-- "any other code": when the string denotes no supported culture, the answer is English with fallback and
-ValueError without (for every model type that has an English model — all of them, `gen_english_registered_table`). -/
-theorem other_code_gets_english (py : PyStr) (r : Bool) (kind : Nat) (t : Str) (c : Option Str) (o : Int)
-    (hother : specCulture py S c = none) (hen : (t, RTV.Gen.fallbackCulture) ∈ genRegs kind) :
-    route (genCfg py r) kind t (specCulture py S c) true o = .ok ⟨kind, t, RTV.Gen.fallbackCulture, o⟩ ∧
-    route (genCfg py r) kind t (specCulture py S c) false o = .error .valueError := by
-  rw [hother]
-  exact no_model_falls_back (genCfg py r) kind t none o (by simp) hen
-
-/-- **Negative witnesses** (code as it is, number recogniser = kind 0, fallback on): the strings `"f"`,
-`"z-x"`, `"d"` denote no supported culture, the property demands the English model, the code builds the French /
-Chinese / German one. Replayed on the implementation by the correspondence. -/
-theorem map_other_falls_back_false_f :
+/-- **Negative witnesses** (`startswith` variant, number recogniser = kind 0): the strings `"f"`, `"z-x"`, `"d"`
+denote no supported culture, the property demands the English model (ValueError without fallback), the
+variant builds the French / Chinese / German one. Replayed on the implementation by the correspondence. -/
+theorem startswith_variant_false_f :
     specCulture asciiPy S (some [102]) = none ∧
     route (genCfg asciiPy false) 0 numberModel (resolve (genCfg asciiPy false) ⟨0, none, 0⟩ (some [102])) true 0 =
       .ok ⟨0, numberModel, frFr, 0⟩ := by decide +kernel
 
-theorem map_other_falls_back_false_zx :
+theorem startswith_variant_false_zx :
     specCulture asciiPy S (some [122, 45, 120]) = none ∧
     route (genCfg asciiPy false) 0 numberModel (resolve (genCfg asciiPy false) ⟨0, none, 0⟩ (some [122, 45, 120])) true 0 =
       .ok ⟨0, numberModel, zhCn, 0⟩ := by decide +kernel
 
-theorem map_other_falls_back_false_d :
+theorem startswith_variant_false_d :
     specCulture asciiPy S (some [100]) = none ∧
     route (genCfg asciiPy false) 0 numberModel (resolve (genCfg asciiPy false) ⟨0, none, 0⟩ (some [100])) false 0 =
       .ok ⟨0, numberModel, deDe, 0⟩ := by decide +kernel
 
-/-- the repaired variant on the same witnesses: English with fallback, ValueError without -/
-example : route (genCfg asciiPy true) 0 numberModel (resolve (genCfg asciiPy true) ⟨0, none, 0⟩ (some [102])) true 0 =
-    .ok ⟨0, numberModel, enUs, 0⟩ := by decide +kernel
-example : route (genCfg asciiPy true) 0 numberModel (resolve (genCfg asciiPy true) ⟨0, none, 0⟩ (some [100])) false 0 =
-    .error .valueError := by decide +kernel
-
-/-- non-vacuity of the guard: `"en-GB"` (prefix `en` is a full tag), `"xx-yy"` (matches nothing), `"es-AR"` -/
+/-- non-vacuity of the guard: `"en-GB"` (prefix `en` is a full tag), `"xx-yy"` (matches nothing) -/
 example : PrefixIsTag asciiPy S (some [101, 110, 45, 71, 66]) :=
   prefixIsTag_of_tag_or_none _ _ _ (fun cs h => by injection h with h; subst h; decide +kernel)
 example : PrefixIsTag asciiPy S (some [120, 120, 45, 121, 121]) :=
@@ -403,7 +400,7 @@ theorem gen_own_type (py : PyStr) (r : Bool) (i : Inst) (t c₀ : Str) (c : Opti
 
 /-- non-vacuity + a two-recogniser history: number and date-time recognisers, options 0 and 2, interleaved;
 equal keys share the object (serials 0, 1, 2; the 4th answer is the 1st object). -/
-example : (run (genCfg asciiPy false) State.init
+example : (run (genCfg asciiPy true) State.init
       [.get ⟨0, none, 0⟩ numberModel (some frFr) false,
        .get ⟨2, none, 2⟩ dateTimeModel (some frFr) false,
        .get ⟨2, none, 0⟩ dateTimeModel (some frFr) false,
@@ -416,9 +413,9 @@ each recogniser's own model types): the cache is one dict for all recognisers, s
 `Recognizer.get_model` of a *choice* recogniser (kind 4) asked for `'NumberModel'` raises ValueError when alone
 but is served the number recogniser's model once that has been built. The key is still exactly the requested one. -/
 theorem foreign_type_served_from_shared_cache :
-    (run (genCfg asciiPy false) State.init [.get ⟨4, none, 0⟩ numberModel (some enUs) false]).2 =
+    (run (genCfg asciiPy true) State.init [.get ⟨4, none, 0⟩ numberModel (some enUs) false]).2 =
       [.err .valueError] ∧
-    (run (genCfg asciiPy false) State.init
+    (run (genCfg asciiPy true) State.init
       [.get ⟨0, none, 0⟩ numberModel (some enUs) false, .get ⟨4, none, 0⟩ numberModel (some enUs) false]).2 =
       [.model ⟨⟨0, numberModel, enUs, 0⟩, 0⟩, .model ⟨⟨0, numberModel, enUs, 0⟩, 0⟩] := by decide +kernel
 
@@ -465,9 +462,9 @@ theorem options_out_of_range_rejected (cfg : Cfg) (st : State) (i : Inst) (lazy 
 rejected by the date-time constructor. -/
 theorem gen_option_ranges : RTV.Gen.optionRanges = [(0, 0), (0, 0), (0, 4), (0, 0), (0, 0)] := by decide
 
-example : step (genCfg asciiPy false) State.init (.construct ⟨2, none, 6⟩ true false) =
+example : step (genCfg asciiPy true) State.init (.construct ⟨2, none, 6⟩ true false) =
     (State.init, .err .valueError) := by decide +kernel
-example : (step (genCfg asciiPy false) State.init (.construct ⟨2, none, 3⟩ false false)).2 = .unit := by
+example : (step (genCfg asciiPy true) State.init (.construct ⟨2, none, 3⟩ false false)).2 = .unit := by
   decide +kernel
 
 end RTV.Factory
